@@ -98,8 +98,8 @@ func Transfer(to, tokenID, data) (ok)
   ensures [C10,C11] ok ==> W(old(ns(store, tokenID)).Owner) && old(store).has(nkey(tokenID)) && len(to) == 20
   ensures [C10,C11] !ok ==> store == old(store) && notifs == old(notifs)
   ensures [C10] ok ==> notifs == old(notifs) ++ [Transfer(old(ns(store, tokenID)).Owner, to, 1, tokenID)]
-  // transfer changes only the owner (and clears the admin)
-  ensures [C10] ok && to != old(ns(store, tokenID)).Owner ==>
+  // transfer changes only the owner (and clears the admin, so a former admin loses every right)
+  ensures [C10,C11] ok && to != old(ns(store, tokenID)).Owner ==>
         store.has(nkey(tokenID)) && ns(store, tokenID).Owner == to && isnil(ns(store, tokenID).Admin)
         && ns(store, tokenID).Name == old(ns(store, tokenID)).Name && ns(store, tokenID).Expiration == old(ns(store, tokenID)).Expiration
   ensures [C10] ok && to == old(ns(store, tokenID)).Owner ==> store == old(store)
